@@ -91,7 +91,7 @@ def recorder_of(o, kind):
     return o if kind == 0 else o.__self__
 
 
-@harness(prop="C03", target="geckolib.driver.observable:Observable.watch", name="observable_registry",
+@harness(prop="C03", target="geckolib.driver.observable:Observable.watch", name="observable_registry", bounded="observer lists of 0..3 members",
          note="BOUNDED: observer lists of 0..3 members, every aliasing pattern of the (re-)registered observer")
 def observable_registry(n: int, kind: int, dup: int, rem: int):
     """watch twice -> called once; unwatch -> never called; every observer called exactly once in order"""
